@@ -83,6 +83,7 @@ def cases(draw):
     c['input'] = draw(st.sampled_from(['object', 'file']))
     # the result may have been ranked again by the caller (FitInfo.sort() is public, e.g. after adding a prior to chi2)
     c['resort'] = draw(st.integers(0, 2)) == 0
+    c['second_generation'] = draw(st.integers(0, 2)) == 0
     c['av_range'] = draw(st.sampled_from([[0., 10.], [0., 0.5], [1., 1.], [-1., 30.]]))
     return c
 
@@ -117,6 +118,19 @@ def write_sed_files(mdir, case, apdep):
                              pkgio.wav_to_nu(wav), aps, flux, err, distance_cm=3.0856775814913674e21)
 
 
+def regenerated(case):
+    """the same package description with the model fluxes re-assigned: model i gets the (rescaled) fluxes of model i+1"""
+    import copy
+    c = copy.deepcopy(case)
+    g = c['grid']
+    n = len(g['names'])
+    if 'logflux' in g:
+        g['logflux'] = [[v + 0.17 * (j + 1) for j, v in enumerate(case['grid']['logflux'][(i + 1) % n])] for i in range(n)]
+    else:
+        g['flux'] = [[[v * (1.5 + 0.25 * j) for v in col] for j, col in enumerate(case['grid']['flux'][(i + 1) % n])] for i in range(n)]
+    return c
+
+
 def run_case(case, ctx):
     from astropy import units as u
     import sedfitter
@@ -132,116 +146,125 @@ def run_case(case, ctx):
     if not any(f in (1, 4) for f in src['flags']):
         return labels | {'no_fitted_point_skipped'}, False
     with ctx.tempdir() as d:
-        mdir = os.path.join(d, 'models')
-        os.mkdir(mdir)
-        if apdep:
-            gen.build_package_3d(mdir, case)
-            dr = gen.distance_range_quantity(case['setup'])
-            aps = case['grid']['apertures']
-        else:
-            gen.build_package_2d(mdir, case)
-            dr = None
-            aps = None
-        if case.get('pkg') == 'perfile':
-            write_sed_files(mdir, case, apdep)
-            labels.add('per_file_package_' + case.get('sed_layout', 'flat'))
-        else:
-            labels.add('cube_package')
-        with must_succeed('Fitter()'), quiet():
-            fitter = gen.make_fitter(mdir, case, case['av_range'], distance_range=dr)
-        with must_succeed('Fitter.fit'), quiet():
-            info = fitter.fit(gen.source_object(src))
-        if not np.all(np.isfinite(info.chi2)) or not np.all(np.isfinite(info.av)):
-            return labels | {'singular_fit_skipped'}, False
-        if case.get('resort'):
-            with must_succeed('FitInfo.sort() on a fit result'):
-                info.sort()
-            labels.add('result_sorted_again')
-        nsel = min(case['nsel'], len(names))
-        sel = ('N', nsel)
-        # what the fit stores
-        pred = []
-        for i in range(nsel):
-            pred.append({'name': str(info.model_name[i]).strip(), 'av': float(info.av[i]), 'sc': float(info.sc[i]),
-                         'mf': [float(v) for v in info.model_fluxes[i]]})
-        if any(abs(v) > 250. for p in pred for v in p['mf']) or any(abs(p['sc']) > 100. for p in pred) or \
-                any(abs(p['av'] * kk) > 100. for p in pred for kk in k):
-            # the intermediate products (distance scaling x reddening) leave the float64 range
-            return labels | {'flux_out_of_float_range_skipped'}, False
-        if case['input'] == 'file':
-            path = os.path.join(d, 'out.fitinfo')
-            fg.write_fit_file(path, [info])
-            arg = path
-        else:
-            arg = info
-        with must_succeed('plot(sed_type=%r, %s input)' % (case['sed_type'], case['input'])), quiet():
-            figs = sedfitter.plot(arg, output_dir=None, select_format=sel, sed_type=case['sed_type'])
-        import matplotlib.pyplot as plt
-        plt.close('all')
-        if src['name'] not in figs or 'lines' not in figs[src['name']]:
-            fail('plot() returned no curves for the source', 'c17:no_lines')
-        segs = [np.asarray(s, dtype=float) for s in figs[src['name']]['lines'].get_segments()]
-        mode = case['sed_type']
-        shown = {'interp': [None], 'largest': [max(theta)], 'largest+smallest': [min(theta), max(theta)], 'all': uniq}[mode]
-        count = len(shown)
-        if len(segs) != nsel * count:
-            fail('%d curves drawn for %d selected fits in display mode %r (%d aperture(s) shown per fit: expected %d)' % (
-                len(segs), nsel, mode, count, nsel * count), 'c17:curve_count')
-        groups = [segs[g * count:(g + 1) * count] for g in range(nsel)]
+        base_case = case
+        for generation in range(2 if case.get('second_generation') else 1):
+            if generation == 1:
+                # the package is regenerated IN THE SAME DIRECTORY with other fluxes behind the same model names (a model
+                # grid re-computed by the script that made it), fitted and plotted again in the same process
+                import shutil
+                case = regenerated(base_case)
+                shutil.rmtree(os.path.join(d, 'models'))
+                labels.add('package_regenerated_in_place')
+            mdir = os.path.join(d, 'models')
+            os.mkdir(mdir)
+            if apdep:
+                gen.build_package_3d(mdir, case)
+                dr = gen.distance_range_quantity(case['setup'])
+                aps = case['grid']['apertures']
+            else:
+                gen.build_package_2d(mdir, case)
+                dr = None
+                aps = None
+            if case.get('pkg') == 'perfile':
+                write_sed_files(mdir, case, apdep)
+                labels.add('per_file_package_' + case.get('sed_layout', 'flat'))
+            else:
+                labels.add('cube_package')
+            with must_succeed('Fitter()'), quiet():
+                fitter = gen.make_fitter(mdir, case, case['av_range'], distance_range=dr)
+            with must_succeed('Fitter.fit'), quiet():
+                info = fitter.fit(gen.source_object(src))
+            if not np.all(np.isfinite(info.chi2)) or not np.all(np.isfinite(info.av)):
+                return labels | {'singular_fit_skipped'}, False
+            if case.get('resort'):
+                with must_succeed('FitInfo.sort() on a fit result'):
+                    info.sort()
+                labels.add('result_sorted_again')
+            nsel = min(case['nsel'], len(names))
+            sel = ('N', nsel)
+            # what the fit stores
+            pred = []
+            for i in range(nsel):
+                pred.append({'name': str(info.model_name[i]).strip(), 'av': float(info.av[i]), 'sc': float(info.sc[i]),
+                             'mf': [float(v) for v in info.model_fluxes[i]]})
+            if any(abs(v) > 250. for p in pred for v in p['mf']) or any(abs(p['sc']) > 100. for p in pred) or \
+                    any(abs(p['av'] * kk) > 100. for p in pred for kk in k):
+                # the intermediate products (distance scaling x reddening) leave the float64 range
+                return labels | {'flux_out_of_float_range_skipped'}, False
+            if case['input'] == 'file':
+                path = os.path.join(d, 'out.fitinfo')
+                fg.write_fit_file(path, [info])
+                arg = path
+            else:
+                arg = info
+            with must_succeed('plot(sed_type=%r, %s input)' % (case['sed_type'], case['input'])), quiet():
+                figs = sedfitter.plot(arg, output_dir=None, select_format=sel, sed_type=case['sed_type'])
+            import matplotlib.pyplot as plt
+            plt.close('all')
+            if src['name'] not in figs or 'lines' not in figs[src['name']]:
+                fail('plot() returned no curves for the source', 'c17:no_lines')
+            segs = [np.asarray(s, dtype=float) for s in figs[src['name']]['lines'].get_segments()]
+            mode = case['sed_type']
+            shown = {'interp': [None], 'largest': [max(theta)], 'largest+smallest': [min(theta), max(theta)], 'all': uniq}[mode]
+            count = len(shown)
+            if len(segs) != nsel * count:
+                fail('%d curves drawn for %d selected fits in display mode %r (%d aperture(s) shown per fit: expected %d)' % (
+                    len(segs), nsel, mode, count, nsel * count), 'c17:curve_count')
+            groups = [segs[g * count:(g + 1) * count] for g in range(nsel)]
 
-        def mismatch(group, p):
-            """None if this group of curves is the fit p, else a description"""
-            m = names.index(p['name'])
-            d_kpc = 10. ** p['sc']
-            for j in range(nf):
-                lam = case['filters'][j]['wav']
-                want = 10. ** (p['mf'][j] - 26.) * C_UM / lam
-                lo = hi = want
-                if mode == 'interp':
-                    curve = group[0]
-                    if apdep and len(aps) > 1 and theta[j] * d_kpc * 1000. > aps[-1]:
-                        # beyond the table: 0.999 x max bracket
-                        col = case['grid']['flux'][m][j]
-                        alt = om.interp_aperture(aps, col, 0.999 * aps[-1]) / col[-1] * want
-                        lo, hi = min(want, alt), max(want, alt)
-                else:
-                    if theta[j] not in shown:
-                        continue
-                    curve = group[shown.index(theta[j])]
-                if curve.ndim != 2 or curve.shape[0] == 0:
-                    return 'a drawn curve has no finite points (shape %r)' % (curve.shape,)
-                x = curve[:, 0]
-                p_idx = int(np.argmin(np.abs(x - lam)))
-                if abs(x[p_idx] - lam) > 1e-9 * lam:
-                    return 'curve has no point at the fitted wavelength %r micron' % lam
-                y = curve[p_idx, 1]
-                if not (lo * (1 - 1.5e-3) <= y <= hi * (1 + 1.5e-3)):
-                    return ('at %r micron (filter %d, aperture %r") the curve has %r, the predicted flux stored with the fit '
-                            '(model %s, A_V=%r, scale=%r) is %r' % (lam, j, theta[j], y, p['name'], p['av'], p['sc'], want))
-            return None
+            def mismatch(group, p):
+                """None if this group of curves is the fit p, else a description"""
+                m = names.index(p['name'])
+                d_kpc = 10. ** p['sc']
+                for j in range(nf):
+                    lam = case['filters'][j]['wav']
+                    want = 10. ** (p['mf'][j] - 26.) * C_UM / lam
+                    lo = hi = want
+                    if mode == 'interp':
+                        curve = group[0]
+                        if apdep and len(aps) > 1 and theta[j] * d_kpc * 1000. > aps[-1]:
+                            # beyond the table: 0.999 x max bracket
+                            col = case['grid']['flux'][m][j]
+                            alt = om.interp_aperture(aps, col, 0.999 * aps[-1]) / col[-1] * want
+                            lo, hi = min(want, alt), max(want, alt)
+                    else:
+                        if theta[j] not in shown:
+                            continue
+                        curve = group[shown.index(theta[j])]
+                    if curve.ndim != 2 or curve.shape[0] == 0:
+                        return 'a drawn curve has no finite points (shape %r)' % (curve.shape,)
+                    x = curve[:, 0]
+                    p_idx = int(np.argmin(np.abs(x - lam)))
+                    if abs(x[p_idx] - lam) > 1e-9 * lam:
+                        return 'curve has no point at the fitted wavelength %r micron' % lam
+                    y = curve[p_idx, 1]
+                    if not (lo * (1 - 1.5e-3) <= y <= hi * (1 + 1.5e-3)):
+                        return ('at %r micron (filter %d, aperture %r") the curve has %r, the predicted flux stored with the fit '
+                                '(model %s, A_V=%r, scale=%r) is %r' % (lam, j, theta[j], y, p['name'], p['av'], p['sc'], want))
+                return None
 
-        why = mismatch(groups[-1], pred[0])
-        if why is not None:
-            # is the best fit drawn somewhere else?
-            elsewhere = [g for g in range(nsel - 1) if mismatch(groups[g], pred[0]) is None]
-            if elsewhere:
-                fail('the best fit is not drawn last (it is group %d of %d)' % (elsewhere[0] + 1, nsel), 'c17:best_not_last')
-            fail('display mode %r, best fit: %s' % (mode, why), 'c17:curve_not_through_prediction')
-        # the other groups may be drawn in any order: look for a one-to-one assignment (the 0.999-max bracket can make a
-        # fit compatible with several groups, so a greedy choice is not enough)
-        import itertools
-        rest = pred[1:]
-        table = [[mismatch(groups[g], p) for g in range(nsel - 1)] for p in rest]
-        assigned = any(all(table[r][perm[r]] is None for r in range(len(rest)))
-                       for perm in itertools.permutations(range(nsel - 1)))
-        if not assigned:
-            for r, p in enumerate(rest):
-                if all(w is not None for w in table[r]):
-                    fail('display mode %r, fit of model %s: no drawn curve matches it: %s' % (mode, p['name'], table[r][-1 - r] or table[r][0]),
-                         'c17:curve_not_through_prediction')
-            fail('display mode %r: the drawn curves cannot be assigned one-to-one to the selected fits %r' % (
-                mode, [p['name'] for p in rest]), 'c17:curve_not_through_prediction')
-        del fitter
+            why = mismatch(groups[-1], pred[0])
+            if why is not None:
+                # is the best fit drawn somewhere else?
+                elsewhere = [g for g in range(nsel - 1) if mismatch(groups[g], pred[0]) is None]
+                if elsewhere:
+                    fail('the best fit is not drawn last (it is group %d of %d)' % (elsewhere[0] + 1, nsel), 'c17:best_not_last')
+                fail('display mode %r, best fit: %s' % (mode, why), 'c17:curve_not_through_prediction')
+            # the other groups may be drawn in any order: look for a one-to-one assignment (the 0.999-max bracket can make a
+            # fit compatible with several groups, so a greedy choice is not enough)
+            import itertools
+            rest = pred[1:]
+            table = [[mismatch(groups[g], p) for g in range(nsel - 1)] for p in rest]
+            assigned = any(all(table[r][perm[r]] is None for r in range(len(rest)))
+                           for perm in itertools.permutations(range(nsel - 1)))
+            if not assigned:
+                for r, p in enumerate(rest):
+                    if all(w is not None for w in table[r]):
+                        fail('display mode %r, fit of model %s: no drawn curve matches it: %s' % (mode, p['name'], table[r][-1 - r] or table[r][0]),
+                             'c17:curve_not_through_prediction')
+                fail('display mode %r: the drawn curves cannot be assigned one-to-one to the selected fits %r' % (
+                    mode, [p['name'] for p in rest]), 'c17:curve_not_through_prediction')
+            del fitter
     multi = (apdep and len(case['grid']['apertures']) > 1) or len(uniq) >= 2
     return labels, nsel >= 2 and multi
 
